@@ -8,7 +8,7 @@ def check(tier, seed):
     rep = core.Report('C06', tier, seed)
     rng = random.Random(seed)
     b = core.prepare('C06', 'Fips204/Props/C06.lean')
-    if b.cargo_errs or not b.model_ok:
+    if b.cargo_errs:
         return core.finish(rep, b, 'proof', {}, ['build failed'])
     nstr = 40 if tier == 'thorough' else 3
     cases = []
